@@ -425,6 +425,20 @@ def oracle_raw(R):
             m = re.match(r"([^.]+)\.(.+)/([EDR])$", it)
             if m and m.group(3) != "R":
                 got.append((m.group(1), m.group(2)))
+        # a position is written `*` (flag d) only when a DERIVE clause of the instance's inheritance closure redeclares it
+        # (ISO 10303-21 11.2.6) — the raw INST line still has the flags
+        raw = next((x for x in R.real if x.startswith(f"INST {n} ")), "")
+        closure = s.inherit_order(e["name"])
+        for it in (raw.split(" : ")[1].split() if " : " in raw and not raw.endswith(" :") else []):
+            m = re.match(r"([^.]+)\.(.+)/([EDR])([dr]*)$", it)
+            if m and "d" in m.group(4) and m.group(3) == "E":
+                derived_somewhere = any(a["kind"] == "D" and a["redecl"] and a["name"].lower() == m.group(2)
+                                        for mm in closure for a in s.Ent(mm)["attrs"])
+                if not derived_somewhere:
+                    probs.append(("flags:explicit-redeclaration-marked-derived",
+                                  f"fresh instance of {n}: attribute {m.group(1)}.{m.group(2)} is flagged derived (written `*`) although no DERIVE "
+                                  f"clause in {closure} redeclares it", ("entity", e["name"])))
+                    break
         want = s.p21_order(e["name"])
         if got != want:
             cls = "duplicate" if len(set(got)) != len(got) else ("missing" if set(got) < set(want) else "order")
